@@ -10,28 +10,45 @@ from pvl.parser import PVLParser, ODLParser, OmniParser
 from pvl.encoder import PVLEncoder, ODLEncoder, PDSLabelEncoder, ISISEncoder
 
 CONFIGS = ["PVL", "ODL", "PDS3", "ISIS", "default"]
+
+
+class UserModule(pvl.PVLModule):
+    """Container classes a caller may hand to the parsers."""
+
+
+class UserGroup(pvl.PVLGroup):
+    pass
+
+
+class UserObject(pvl.PVLObject):
+    pass
+
+
+CUSTOM = dict(module_class=UserModule, group_class=UserGroup,
+              object_class=UserObject)
 STRICT = ["PVL", "ODL", "PDS3"]
 
 
-def make_parser(config, lexer_fn=None):
+def make_parser(config, lexer_fn=None, custom=False):
+    kw = dict(CUSTOM) if custom else {}
     if config == "PVL":
         g = PVLGrammar()
         return PVLParser(grammar=g, decoder=PVLDecoder(grammar=g),
-                         lexer_fn=lexer_fn)
+                         lexer_fn=lexer_fn, **kw)
     if config == "ODL":
         g = ODLGrammar()
         return ODLParser(grammar=g, decoder=ODLDecoder(grammar=g),
-                         lexer_fn=lexer_fn)
+                         lexer_fn=lexer_fn, **kw)
     if config == "PDS3":
         g = PDSGrammar()
         return ODLParser(grammar=g, decoder=PDSLabelDecoder(grammar=g),
-                         lexer_fn=lexer_fn)
+                         lexer_fn=lexer_fn, **kw)
     if config == "ISIS":
         g = ISISGrammar()
         return OmniParser(grammar=g, decoder=OmniDecoder(grammar=g),
-                          lexer_fn=lexer_fn)
+                          lexer_fn=lexer_fn, **kw)
     if config == "default":
-        return OmniParser(lexer_fn=lexer_fn)
+        return OmniParser(lexer_fn=lexer_fn, **kw)
     raise ValueError(config)
 
 
@@ -60,16 +77,19 @@ def make_encoder(config, **kw):
     raise ValueError(config)
 
 
-def load(config, text, lexer_fn=None):
-    """One guarded load: returns core.Outcome."""
+def load(config, text, lexer_fn=None, custom=False):
+    """One guarded load: returns core.Outcome.  *custom*: hand the parser
+    user subclasses as module/group/object classes."""
     if config == "new":
         # the default configuration with the pvl.new container classes
         # (documented module_class/group_class/object_class arguments)
         kw = {} if lexer_fn is None else {"lexer_fn": lexer_fn}
         return core.guarded(lambda: pvl.new.loads(text, **kw), len(text))
     if config == "default" and lexer_fn is None:
+        if custom:
+            return core.guarded(lambda: pvl.loads(text, **CUSTOM), len(text))
         return core.guarded(lambda: pvl.loads(text), len(text))
-    p = make_parser(config, lexer_fn)
+    p = make_parser(config, lexer_fn, custom)
     return core.guarded(lambda: pvl.loads(text, parser=p), len(text))
 
 
